@@ -756,6 +756,15 @@ def replay(rec):
     rep = Report('C19')
     cfg = rec['cfg']
     ensure_pristine()
+    if cfg['part'] != 'isolation':
+        # the same process history as in check(): every request has been served twice on fresh apps before anything
+        # is explored (a violation may depend on what those left behind in process-wide state)
+        for kind in ('wsgi', 'asgi'):
+            for size in ('small', 'full', 'dep'):
+                for n in REQS:
+                    for _round in (0, 1):
+                        app = build_app(kind, size)
+                        wsgi_req(app, n) if kind == 'wsgi' else asgi_req(app, n)
     if cfg['part'] == 'isolation':
         bad = []
         for kind in ('wsgi', 'asgi'):
